@@ -3,8 +3,8 @@ open Model
 open Zconv
 
 let flavour_of cfg = match cfg with
-  | "str" :: _ -> FStr | "var" :: _ -> FVar | "ptr" :: _ -> FPtr
-  | _ -> failwith "case line needs a flavour: str | var | ptr"
+  | "str" :: _ -> FStr | "var" :: _ -> FVar | "ptr" :: _ -> FPtr | "xml" :: _ -> FXml
+  | _ -> failwith "case line needs a flavour: str | var | ptr | xml"
 
 let nat s = nat_of_int (int_of_string s)
 let parse_op toks = match toks with
@@ -47,8 +47,133 @@ let sval_str f x = match x with
   | SDead -> "D" | SNull -> "-"
   | SVal (i, n) -> (match f with FPtr -> Printf.sprintf "%d:%s" (int_of_nat i) (dec_of_z n) | _ -> dec_of_z n)
 
-let () =
-  let mode = Sys.argv.(1) and file = Sys.argv.(2) in
+
+(* ---- concurrent cases (flavours cstr / cvar / cptr / cxml) --------------------------------------- *)
+let nv_print = 6
+type cst = { cf : flavour; mutable cval0 : int; mutable cnv : int; mutable owns : int list; mutable progs : string list list array }
+
+let is_conc cfg = match cfg with f :: _ -> String.length f > 1 && f.[0] = 'c' | [] -> false
+let conc_flavour cfg = match cfg with f :: r -> flavour_of (String.sub f 1 (String.length f - 1) :: r) | [] -> FStr
+
+(* harness rules: ops on variables outside the thread's range are skipped; Ptr has no write; only Ptr swaps *)
+let cop_of f nv toks : cop option =
+  let ok v = v >= 0 && v < nv in
+  match toks with
+  | ["copy"; d; s] -> let d = int_of_string d and s = int_of_string s in if ok d && ok s then Some (CCopy (nat_of_int d, nat_of_int s)) else None
+  | ["assign"; d; s] -> let d = int_of_string d and s = int_of_string s in if ok d && ok s then Some (CAssign (nat_of_int d, nat_of_int s)) else None
+  | ["drop"; v] -> let v = int_of_string v in if ok v then Some (CDrop (nat_of_int v)) else None
+  | ["read"; v] -> let v = int_of_string v in if ok v then Some (CRead (nat_of_int v)) else None
+  | "write" :: v :: r -> let v = int_of_string v in
+    if not (ok v) then None else if f = FPtr then None else Some (CWrite (nat_of_int v, r = ["force"]))
+  | ["swap"; a; b] -> let a = int_of_string a and b = int_of_string b in
+    if f = FPtr && ok a && ok b && a <> b then Some (CSwap (nat_of_int a, nat_of_int b)) else None
+  | _ -> failwith ("bad thread op: " ^ String.concat " " toks)
+
+let cfg_of (c : cst) =
+  List.mapi (fun i n -> (nat_of_int n, List.filter_map (cop_of c.cf c.cnv) c.progs.(i))) c.owns
+
+let rec run_to_end st nth budget =
+  if finishedb st || budget <= 0 then st
+  else run_to_end (run_sched st (List.init nth nat_of_int)) nth (budget - 1)
+
+let pad l n x = l @ List.init (max 0 (n - List.length l)) (fun _ -> x)
+let join_groups gs = String.concat " ; " (List.map (String.concat " ") gs)
+
+let conc_obs (c : cst) (st : cstate) : string =
+  match st.cflt with
+  | Some (CUaf _) -> "! uaf" | Some (CDouble _) -> "! dblfree" | Some (CUnderflow _) -> "! underflow"
+  | Some (CSharedWrite _) -> "! sharedwrite" | Some (CFreeReferenced _) -> "! freereferenced"
+  | None ->
+    let blk b = List.nth st.cheap (int_of_nat b) in
+    let tbl = ref [] in
+    let cls b = let b = int_of_nat b in
+      match List.assoc_opt b !tbl with Some k -> string_of_int k
+      | None -> let k = List.length !tbl in tbl := (b, k) :: !tbl; string_of_int k in
+    let vals = List.map (fun th -> pad (List.map (fun x -> match x with
+        | None -> "D"
+        | Some b -> (match c.cf with FPtr -> "0:" ^ dec_of_z (blk b).cval | _ -> dec_of_z (blk b).cval)) th.tvars) nv_print "D") st.threads in
+    let classes = List.map (fun th -> pad (List.map (fun x -> match x with None -> "." | Some b -> cls b) th.tvars) nv_print ".") st.threads in
+    let rcs = List.map (fun th -> pad (List.map (fun x -> match x with None -> "." | Some b -> dec_of_z (blk b).crc ^ "=") th.tvars) nv_print ".") st.threads in
+    (* drop every handle that is left: nothing may stay allocated *)
+    let drops = List.init c.cnv (fun v -> CDrop (nat_of_int v)) in
+    let st2 = { st with threads = List.map (fun th -> { th with prog = drops; phase = O }) st.threads } in
+    let nth = List.length st.threads in
+    let st3 = run_to_end st2 nth (5 * c.cnv + 5) in
+    let after = match st3.cflt with Some _ -> -1 | None -> int_of_nat (live_cblocks st3) in
+    Printf.sprintf "%s | live=%d | %s | %s | after=%d" (join_groups vals) (int_of_nat (live_cblocks st))
+      (join_groups classes) (join_groups rcs) after
+
+let conc_run (c : cst) (sched : int list) : string =
+  let cfg = cfg_of c in
+  let variant = (match c.cf with FVar | FXml -> true | _ -> false) in
+  let st0 = cinit variant (z_of_int c.cval0) (nat_of_int c.cnv) cfg in
+  let nth = List.length cfg in
+  let st1 = run_sched st0 (List.map nat_of_int (List.filter (fun t -> t >= 0 && t < nth) sched)) in
+  let st2 = run_to_end st1 nth (int_of_nat (steps_bound cfg) + 5) in
+  if st2.cflt = None && not (finishedb st2) then "! model-did-not-finish" else conc_obs c st2
+
+(* a few fixed schedules for `free`: all must give the same observation *)
+let lcg s = (s * 1103515245 + 12345) land 0x3fffffff
+let free_schedules (c : cst) =
+  let cfg = cfg_of c in
+  let nth = List.length cfg in
+  let total = int_of_nat (steps_bound cfg) in
+  let seqs = List.concat (List.init nth (fun t -> List.init total (fun _ -> t))) in
+  let rnd seed = let s = ref seed in List.init (2 * total) (fun _ -> s := lcg !s; if nth = 0 then 0 else (!s lsr 8) mod nth) in
+  [[]; seqs; List.rev seqs; rnd 1; rnd 7; rnd 12345]
+
+let conc_spec (c : cst) : string =
+  let nth = List.length c.owns in
+  let sv = List.concat (List.mapi (fun _ n -> List.init nv_print (fun j -> if j < min n c.cnv then SVal (O, z_of_int c.cval0) else SDead)) c.owns) in
+  let st = ref { svars = sv; screated = S O } in
+  let ok v = v >= 0 && v < c.cnv in
+  Array.iteri (fun t prog ->
+      if t < nth then
+        let base = t * nv_print in
+        let n v = nat_of_int (base + v) in
+        List.iter (fun toks ->
+            let o = match toks with
+              | ["copy"; d; s] -> let d = int_of_string d and s = int_of_string s in if ok d && ok s then Some (OCopy (n d, n s)) else None
+              | ["assign"; d; s] -> let d = int_of_string d and s = int_of_string s in if ok d && ok s then Some (OAssign (n d, n s)) else None
+              | ["drop"; v] -> let v = int_of_string v in if ok v then Some (ODestroy (n v)) else None
+              | "write" :: v :: _ -> let v = int_of_string v in if ok v then Some (OWrite (n v)) else None
+              | ["swap"; a; b] -> let a = int_of_string a and b = int_of_string b in if ok a && ok b && a <> b then Some (OSwap (n a, n b)) else None
+              | _ -> None in
+            match o with Some o -> st := spec_step c.cf !st o | None -> ()) prog) c.progs;
+  let rec groups l = if l = [] then [] else
+      let rec take k l = if k = 0 then ([], l) else match l with [] -> ([], []) | x :: r -> let (a, b) = take (k - 1) r in (x :: a, b) in
+      let (g, r) = take nv_print l in g :: groups r in
+  join_groups (List.map (List.map (sval_str c.cf)) (groups !st.svars))
+
+let conc_main mode file =
+  run_cases file
+    (fun cfg -> { cf = conc_flavour cfg; cval0 = 0; cnv = 1; owns = []; progs = [||] })
+    (fun c _ toks ->
+       (match toks with
+        | "init" :: v :: nv :: owns ->
+          c.cval0 <- int_of_string v; c.cnv <- max 1 (min nv_print (int_of_string nv));
+          let owns = List.filteri (fun i _ -> i < 4) owns in
+          c.owns <- List.map (fun s -> max 0 (min c.cnv (int_of_string s))) owns;
+          c.progs <- Array.make (List.length c.owns) [];
+          emit "init"
+        | "t" :: tid :: rest ->
+          let t = int_of_string tid in
+          if t >= 0 && t < Array.length c.progs && List.length c.progs.(t) < 64 && List.length rest >= 2 then c.progs.(t) <- c.progs.(t) @ [rest];
+          emit "t"
+        | "go" :: ids ->
+          if mode = "spec" then emit (conc_spec c) else emit (conc_run c (List.map int_of_string ids))
+        | "free" :: _ ->
+          if mode = "spec" then emit (conc_spec c) else begin
+            let outs = List.map (conc_run c) (free_schedules c) in
+            match outs with
+            | o :: r -> if List.for_all (fun x -> x = o) r then emit o else emit "! model-schedule-dependent"
+            | [] -> ()
+          end
+        | _ -> emit "?unknown-op");
+       c)
+    (fun _ -> emit "end")
+
+let seq_main mode file =
   if mode = "model" || mode = "aswritten" then begin
     let obj_only = (mode = "aswritten") in
     let dead = ref false in
@@ -85,4 +210,20 @@ let () =
       (fun (f, st) ->
          match f with
          | FPtr -> emit (Printf.sprintf "end | live=0 dtors=%d" (int_of_nat st.screated))
-         | _ -> emit "end | live=0 dtors=?")
+         | _ -> emit "end")
+
+(* a file holds either sequential or concurrent cases (the check keeps them in separate streams) *)
+let () =
+  let mode = Sys.argv.(1) and file = Sys.argv.(2) in
+  let ic = open_in file in
+  let conc = ref false in
+  (try
+     while true do
+       let line = input_line ic in
+       match tokens line with
+       | "case" :: _ :: cfg -> if is_conc cfg then conc := true; Stdlib.raise Exit
+       | _ -> ()
+     done
+   with End_of_file | Exit -> ());
+  close_in ic;
+  if !conc then conc_main mode file else seq_main mode file
